@@ -21,14 +21,14 @@ S=sys.argv[1]
 c=collections.Counter(); ex={}; runs=0; filtered=collections.Counter()
 def misuse(hist):
     # a client send that begins after the client's CloseSend began: usage error, grpc-go aborts the stream
-    closed={}
+    closed={}; bad=set()
     for l in hist:
         m=re.match(r'\[(\d+)\.\.(\d+)\] rpc(\d+) c\d+ (\w+)',l)
         if not m: continue
         seq,rpc,op=int(m.group(1)),m.group(3),m.group(4)
         if op=='closesend': closed.setdefault(rpc,seq)
-        if op=='send' and rpc in closed and seq>closed[rpc]: return rpc
-    return None
+        if op=='send' and rpc in closed and seq>closed[rpc]: bad.add(rpc)
+    return bad
 for f in glob.glob(S+'/cal*_*.json'):
     o=json.load(open(f)); runs+=o['runs']
     for fl in o.get('fatal') or []: c['FATAL '+fl[:80]]+=1
@@ -37,7 +37,7 @@ for f in glob.glob(S+'/cal*_*.json'):
         malformed=set(m.group(1) for l in (r.get('history') or []) if 'malformed grpc-status' in l for m in [re.search(r'rpc(\d+) ',l)] if m)
         for v in r['violations']:
             sig=v['sig']; t=v['text']
-            if bad is not None and ('rpc%s '%bad) in t: filtered['client usage error: SendMsg after CloseSend aborts a grpc-go stream']+=1; continue
+            if any(('rpc%s '%b) in t for b in bad): filtered['client usage error: SendMsg after CloseSend aborts a grpc-go stream']+=1; continue
             if sig.startswith(('C08|grpc|unary|success-with-zero','C01|grpc|unary|h2c-fabricated')): filtered['typed-nil unary response: grpc-go encodes it as an empty message and succeeds; grpchan (and the property) report an error']+=1; continue
             if 'status-details-differs' in sig and '\\x' in t: filtered['invalid-UTF-8 status message with details: grpc-go cannot encode grpc-status-details-bin and drops the details']+=1; continue
             mm=re.match(r'rpc(\d+) ',t)
